@@ -204,6 +204,10 @@ def _loose(v):
 
 
 def _normalise(res, cs=None):
+    if cs is not None and cs['op'] in ('s_label_widths', 's_iter_label') and res.get('k') == 'array':
+        res = dict(res)
+        res['dt'] = ['any', 0]
+        return res
     if cs is not None and cs['op'] == 's_searchsorted':
         # the dtype of the reported positions / labels is not part of the statement (labels next to a NaN fill come back as floats)
         res = dict(res)
